@@ -56,6 +56,8 @@ type HarnessSpec struct {
 	Bounds     string              `json:"bounds"` // human-readable statement of the bound
 	Outside    string              `json:"outside"`
 	Assumes    []string            `json:"assumptions"`
+	Kind       string              `json:"kind"` // "" (gosym harness) | "lua" (script encoded by engine/internal/lua, see lua.go)
+	Lua        *LuaSpec            `json:"lua"`
 	NativeStub []string            `json:"native_stub_files"` // extra overlay files for replay (relative to harness dir) "repo/rel/path.go=file"
 
 	// targets of //verif:model directives: redirected in the symbolic world only
